@@ -121,10 +121,13 @@ def wellformed_violations(f, source):
         if not e.highlights:
             out.append((f"C08:no-position:{name}", f"{name} carries no position"))
             continue
-        h = e.highlights[0]
-        cond = c_or(lt(h.lineno, 1), gt(h.lineno, nlines), lt(h.column, 1))
-        if feasible(cond):
-            out.append((f"C08:position-outside-file:{name}", f"{name} is located outside the file (line {conc(h.lineno)}, column {conc(h.column)}, file has {nlines} lines)"))
+        # every highlight (the JSON output lists them all), not only the printed first one
+        for hi, h in enumerate(e.highlights):
+            cond = c_or(lt(h.lineno, 1), gt(h.lineno, nlines), lt(h.column, 1))
+            if feasible(cond):
+                out.append((f"C08:position-outside-file:{name}" + ("" if hi == 0 else ":secondary-highlight"),
+                            f"{name} carries a position outside the file (highlight {hi}: line {conc(h.lineno)}, column {conc(h.column)}, file has {nlines} lines)"))
+                break
     # the diagnostics of a REAL run, in the order the formatters will list them (Errors.__iter__), ascend by (line, column)
     from symx.poly import c_and, eq
     prev = None
